@@ -221,6 +221,10 @@ class DictionaryDataBase(DataBase):
         with self._lock:
             if field_name == "dataObjectID":
                 return data_object_id in self.database
+            if data_object_id is not None:
+                # Only the addressed data container is looked at (as in the TinyDB database)
+                data = self.database.get(data_object_id)
+                return data is not None and Utils.check_field(data, field_name)
             for data in self.database.values():
                 if Utils.check_field(data, field_name):
                     return True
